@@ -86,6 +86,13 @@ type Env struct {
 	rateDen         *big.Int
 }
 
+// AdvanceBlock moves the environment to the next block height (same fork regime and rates).
+func (e *Env) AdvanceBlock() {
+	e.Height++
+	e.Header.SetNumber(new(big.Int).SetUint64(e.Height), common.ZONE_CTX)
+	e.rateNum, e.rateDen = nil, nil // OneOverKqi depends on the block number
+}
+
 // WrapKeepsLocal mirrors the fork rule: before QiWrappingChangeBlock a wrapped output also
 // stays in the local ledger.
 func (e *Env) WrapKeepsLocal() bool { return e.Regime.PTN < params.QiWrappingChangeBlock }
